@@ -134,7 +134,8 @@ func (sb *seqbag) sampleSeqBag(nb int) (*seqbag, error) {
 	permutation := rand.Perm(sb.NbSequences())
 	for i := 0; i < nb; i++ {
 		seq := sb.seqs[permutation[i]]
-		sample.AddSequenceChar(seq.name, seq.SequenceChar(), seq.Comment())
+		// the sample owns its rows (a copy, not the slice of the source)
+		sample.AddSequenceChar(seq.name, append([]uint8(nil), seq.SequenceChar()...), seq.Comment())
 	}
 	return sample, nil
 }
@@ -802,7 +803,7 @@ func (sb *seqbag) rarefySeqBag(nb int, counts map[string]int) (sample *seqbag, e
 	sample = NewSeqBag(sb.alphabet)
 	sb.IterateAll(func(name string, sequence []uint8, comment string) bool {
 		if _, ok := selected[name]; ok {
-			sample.AddSequenceChar(name, sequence, comment)
+			sample.AddSequenceChar(name, append([]uint8(nil), sequence...), comment)
 		}
 		return false
 	})
